@@ -37,6 +37,11 @@ def run(ctx):
     n = 40 if quick else 800
     rb = vlib.gen_behaviours(ctx, "GenBackoff", "GenBackoff.cfg", num=n, depth=60, name="gen-restart",
                              env={"GEN_DEPTH": 6 if quick else 12})[:n]
+    # long streaks of consecutive failures: the restart interval climbs to its cap and stays there until something succeeds
+    nstreak = 4 if quick else 40
+    rb += vlib.gen_behaviours(ctx, "GenBackoff", "GenBackoff.cfg", num=nstreak, depth=400, name="gen-restart-streak", workers=2,
+                              env={"GEN_DEPTH": 26 if quick else 40, "GEN_ERRONLY": 1})[:nstreak]
+    ctx.cov["long_restart_failure_streaks"] = nstreak
     ctx.cov["behaviours_replayed"] += len(rb)
     ctx.sample({"restart_outcomes": rb[0]["outcomes"]})
     rin = os.path.join(ctx.scratch, "rbehs.json")
